@@ -213,6 +213,7 @@ class Interp:
         self.state_limit = PATH_LIMIT * 50
         self.lists = {}           # list id -> length (k-bounded list model, see listmodel.py)
         self.const_params = {}    # const generic name -> value (container model: `[T; N]` analysed with N = list length)
+        self.user_drops_unwind = True   # dropping a value of a type parameter runs a user destructor, which may unwind
         self.acq_limit = None     # cut a path when it is about to issue more than this many blocking acquisitions
         self.root_is_leaf_rawlock_impl = False
         self.frame_fn = {}        # frame id -> function (types of locals)
@@ -1015,6 +1016,18 @@ class Interp:
                 res.append(("unwind" if "unwind" in (kind, k2) else "ok", s2))
         return res
 
+    def _is_key_param(self, fn, name):
+        f = fn
+        seen = 0
+        while f is not None and seen < 4:
+            for p in f.get("predicates", []) or []:
+                if p.get("k") == "trait" and p.get("self", {}).get("k") == "param" and p["self"].get("name") == name and \
+                        (p.get("trait") == "key::Keyable" or str(p.get("trait", "")).startswith("std::ops::Fn")):
+                    return True
+            f = self.F.fn_by_id.get(f.get("parent")) if f.get("kind") == "Closure" else None
+            seen += 1
+        return False
+
     def drop_opaque(self, st, v, t, fn, line, depth):
         oid = v[1]
         if t is None:
@@ -1055,7 +1068,15 @@ class Interp:
             g = st.guards.get(oid)
             if g is not None:
                 st.guards[oid] = (g[0], g[1], "dropped")
-            return [("ok", st)]
+            outs = [("ok", st)]
+            # the destructor of a user-chosen type is user code: it may unwind (keys - `impl Keyable`, sealed to ThreadKey and
+            # `&mut ThreadKey` - and guard payloads are not user code)
+            if self.user_drops_unwind and g is None and not self._is_key_param(fn, t["name"]) and self.can_fault(st):
+                s2 = st.fork()
+                s2.faults += 1
+                self.emit(s2, {"k": "UNWIND_AT", "what": "drop of a user value (%s)" % t["name"]}, fn, line)
+                outs.append(("unwind", s2))
+            return outs
         if k == "alias":
             g = st.guards.get(oid)
             if g is not None:
